@@ -117,7 +117,7 @@ def _json_neighbour(E, case):
 class Env(object):
     """everything built for one case"""
 
-    def __init__(self, case, protocols=None, B=None):
+    def __init__(self, case, protocols=None, B=None, after_app=None):
         self.case = case
         U, m = case["U"], case["m"]
         self.B = B if B is not None else build.Built(U)
@@ -131,6 +131,9 @@ class Env(object):
         self.model = ref_xml.SchemaModel(xs.schema_dict.values())
         self.codec = ref_xml.Codec(self.model, U, variant=case.get("variant", 0),
                                    nil_for_none=bool(case.get("variant", 0) & 2))
+        if after_app is not None:
+            # (C16) history steps that happen between building the application and its request
+            after_app(self)
         rets = [self.B.to_native(t, j) for t, j in zip(m["ret"], case["rets"])]
         oh = None
         if case.get("out_hdr") is not None:
